@@ -243,6 +243,7 @@ func main() {
 	budget := flag.Duration("budget", 10*time.Minute, "")
 	bound := flag.Int("bound", 3, "deviation bound for single commands (preemptions + early timer firings)")
 	only := flag.Int("only", -1, "only this single case")
+	shard := flag.String("shard", "0/1", "k/n: explore every n-th work item starting with the k-th")
 	cont := flag.String("continue", "", "comma-separated classes that do not end the exploration (listed findings)")
 	flag.Parse()
 	lib.Quiet()
@@ -285,15 +286,20 @@ func main() {
 			}
 		}
 	}
-	// single commands: every interleaving (state-key pruned), deviation bound far above the number of choice points that cost
+	// work items: single commands (every schedule within the bound, state-key pruned) and two commands on one executor
+	// (shared process table and mutex); --shard k/n takes every n-th item so that the driver can use all cores
+	type item struct {
+		cs    []Case
+		bound int
+	}
 	out.Bound = *bound
+	var items []item
 	for i, c := range cases {
 		if *only >= 0 && i != *only {
 			continue
 		}
-		explore([]Case{c}, out.Bound, out, stop)
+		items = append(items, item{[]Case{c}, *bound})
 	}
-	// two commands on one executor (shared process table and mutex)
 	pairBound := 2
 	var pairs [][]Case
 	if *tier == "thorough" {
@@ -312,15 +318,22 @@ func main() {
 		}
 	}
 	out.PairBound = pairBound
-	for _, p := range pairs {
-		if *only >= 0 {
-			break
+	if *only < 0 {
+		for _, p := range pairs {
+			items = append(items, item{p, pairBound})
+		}
+	}
+	k, n := 0, 1
+	fmt.Sscanf(*shard, "%d/%d", &k, &n)
+	for i, it := range items {
+		if i%n != k {
+			continue
 		}
 		if stop() {
 			out.Incomplete++
 			continue
 		}
-		explore(p, pairBound, out, stop)
+		explore(it.cs, it.bound, out, stop)
 	}
 	json.NewEncoder(os.Stdout).Encode(out)
 }
